@@ -191,7 +191,9 @@ class GenericCallAdapter(Adapter):
         result_kwargs = {}
         for kw in old_node.keywords:
             if kw.arg not in new_kwargs or new_kwargs[kw.arg].is_default:
-                if isinstance(self.argument(old_value, kw.arg), Unmanaged):
+                if isinstance(
+                    self.argument(old_value, kw.arg), Unmanaged
+                ) or isinstance(kw.value, ast.JoinedStr):
                     # unmanaged values are never changed
                     continue
 
